@@ -1,4 +1,5 @@
 import ShredModel.Lemmas.Exec
+import ShredModel.Model.PTask
 /-!
 # Dispatch with panicking systems (C14)
 
@@ -10,14 +11,6 @@ A batch whose body panics is unwound itself (`P s`).
 -/
 namespace Shred
 variable {ι : Type} [DecidableEq ι]
-
-inductive PEv (ι : Type) | F (s : ι) | D (s : ι) | P (s : ι)
-deriving DecidableEq, Repr
-
-def PEv.sys : PEv ι → ι
-  | .F s => s
-  | .D s => s
-  | .P s => s
 
 inductive PTraces (pan : ι → Prop) : Task ι → List (PEv ι) → Bool → Prop
   | nil : PTraces pan .nil [] false
